@@ -63,7 +63,7 @@ Dependencies can be filtered by target type using the --target-type flag.`,
 			logger.Fatalf(err.Error())
 		}
 		selector := selection.New(nil, config.Global.Tags, config.Global.ExcludeTags, targetTypeFilter)
-		filteredDeps := selector.FilterNodes(dependencies)
+		filteredDeps := selector.FilterNodes(graph, dependencies)
 
 		model.PrintSortedLabels(filteredDeps)
 	},
